@@ -12,6 +12,7 @@ CONSTANTS
   Conts = {TRUE, FALSE}
   Forks = {FALSE}
   MaxFaults = 2
+  FaultBudgets = {2}
   MaxRestarts = 1
 SPECIFICATION MCLive
 INVARIANTS TypeOK
